@@ -14,8 +14,26 @@ where
     Pk: MiniscriptKey<Sha256 = sha256::Hash, Hash256 = hash256::Hash, Ripemd160 = ripemd160::Hash, Hash160 = hash160::Hash>,
     Ctx: ScriptContext,
 {
-    let sub = |x: &Frag| -> Result<Arc<Miniscript<Pk, Ctx>>, String> { build::<Pk, Ctx>(x, world, key).map(Arc::new) };
+    build_ext(f, world, key, false)
+}
+
+/// `unchecked_key_leaves`: key leaves come from the library's unchecked leaf constructors
+/// (`Miniscript::pk_k` / `pk_h`), so only the wrappers' own checks stand between a
+/// context-illegal key and an accepted object.
+pub fn build_ext<Pk, Ctx>(f: &Frag, world: &World, key: &dyn Fn(&KeyRef) -> Option<Pk>, unchecked_key_leaves: bool) -> Result<Miniscript<Pk, Ctx>, String>
+where
+    Pk: MiniscriptKey<Sha256 = sha256::Hash, Hash256 = hash256::Hash, Ripemd160 = ripemd160::Hash, Hash160 = hash160::Hash>,
+    Ctx: ScriptContext,
+{
+    let sub = |x: &Frag| -> Result<Arc<Miniscript<Pk, Ctx>>, String> { build_ext::<Pk, Ctx>(x, world, key, unchecked_key_leaves).map(Arc::new) };
     let k = |r: &KeyRef| key(r).ok_or_else(|| "key form not available for this key type".to_string());
+    if unchecked_key_leaves {
+        match f {
+            Frag::PkK(r) => return Ok(Miniscript::pk_k(k(r)?)),
+            Frag::PkH(r) => return Ok(Miniscript::pk_h(k(r)?)),
+            _ => {}
+        }
+    }
     let ks = |v: &Vec<KeyRef>| -> Result<Vec<Pk>, String> { v.iter().map(|r| k(r)).collect() };
     let e = |x: &dyn std::fmt::Display| x.to_string();
     let t: Terminal<Pk, Ctx> = match f {
